@@ -46,6 +46,11 @@ QUICK_VALUES = [
 ]
 
 
+# (text as a user would write it, declared type, value a typed reader must produce)
+RAW = [("5", "float", 5.0), ("-2", "float", -2.0), ("5", "str", "5"), ("0", "bool", False), ("1", "bool", True), ("7", "int", 7),
+       ("2.0", "float", 2.0), ("True", "bool", True), ("1e-07", "float", 1e-07), ("0", "float", 0.0), ("0", "int", 0), ("0", "str", "0")]
+
+
 def thorough_values():
     vals = list(QUICK_VALUES)
     seen = set((repr(v), t) for v, t in vals)
@@ -194,7 +199,13 @@ class C17(core.Check):
                           "the default: see below" if False else "uses the default backend"]:
             for rm in (False, True):
                 cases.append({"k": "plain", "prose": p, "remove": rm})
-        return core.Listed(cases, note="prose x value x typ x phrase x removal + plain prose")
+        # hand-written default text whose reading depends on the declared type ("Defaults to 5" under float is 5.0)
+        for p in PROSE[:4]:
+            for raw, typ, want in RAW:
+                for ph in range(len(PHRASES)):
+                    for rm in (False, True):
+                        cases.append({"k": "raw", "prose": p, "raw": raw, "typ": typ, "want": want, "phrase": PHRASES[ph], "remove": rm})
+        return core.Listed(cases, note="prose x value x typ x phrase x removal + plain prose + hand-written value text x declared type")
 
     # ------------------------------------------------------------------ oracle pieces
     @staticmethod
@@ -231,6 +242,8 @@ class C17(core.Check):
                 sites.append(site(False, dict(facts, op="set"), fail="raise", **core.exc_obs(e)))
             return sites, None, "plain"
 
+        if case["k"] == "raw":
+            return self.run_raw(case)
         p, v, t, ph, rm = case["prose"], case["value"], case["typ"], case["phrase"], case["remove"]
         facts = dict(prose_facts(p), **value_facts(v, t))
         facts.update(phrase=ph.strip() or ph, remove=rm)
@@ -277,6 +290,17 @@ class C17(core.Check):
                                   got=core.short(got_p["doc"])))
         except Exception as e:
             sites.append(site(False, dict(facts, op="interp"), fail="raise", **core.exc_obs(e)))
+        # --- the ReST parser interpolates the same entry twice: at ':param' (type not yet known) and again at ':type'
+        if t and not rm:
+            try:
+                shared = {"doc": text}
+                interpolate_defaults(("a", shared), emit_default_doc=True)
+                shared["typ"] = t
+                _, got2 = interpolate_defaults(("a", shared), emit_default_doc=True)
+                ok2 = "default" in got2 and self.value_ok(v, got2["default"], exact_str=True)
+                sites.append(site(ok2, dict(facts, op="interp.two_pass"), fail="value", got=repr(got2.get("default", "<absent>"))))
+            except Exception as e:
+                sites.append(site(False, dict(facts, op="interp.two_pass"), fail="raise", **core.exc_obs(e)))
         # --- the writer applied to text that already announces the default: idempotent with default text on,
         #     and the way emitters strip the sentence with default text off
         try:
@@ -293,5 +317,43 @@ class C17(core.Check):
             sites.append(site(False, dict(facts, op="rewrite"), fail="raise", **core.exc_obs(e)))
         return sites, [text, rm], [text, rm, [s["ok"] for s in sites]]
 
+
+def _run_raw(self, case):
+    from doctrans.defaults_utils import extract_default
+    from doctrans.emitter_utils import interpolate_defaults
+
+    p, raw, t, want, ph, rm = case["prose"], case["raw"], case["typ"], case["want"], case["phrase"], case["remove"]
+    phrase = "Defaults to " if ph == "<writer>" else ph
+    text = (p if p[-1] in ".," else p + ".") + " " + phrase + raw
+    facts = dict(prose_facts(p), kind="raw", raw=raw, typ=t, phrase=ph.strip() or ph, remove=rm)
+    sites = []
+
+    def same(got):
+        return type(got) is type(want) and got == want
+
+    try:
+        doc, got = extract_default(text, typ=t, emit_default_doc=not rm)
+        sites.append(site(same(got), dict(facts, op="extract.value"), fail="value", got=repr(got)))
+    except Exception as e:
+        sites.append(site(False, dict(facts, op="extract"), fail="raise", **core.exc_obs(e)))
+    try:
+        _, one = interpolate_defaults(("a", {"doc": text, "typ": t}), emit_default_doc=not rm)
+        sites.append(site("default" in one and same(one["default"]), dict(facts, op="interp.value"), fail="value", got=repr(one.get("default", "<absent>"))))
+    except Exception as e:
+        sites.append(site(False, dict(facts, op="interp"), fail="raise", **core.exc_obs(e)))
+    if not rm:
+        try:
+            shared = {"doc": text}
+            interpolate_defaults(("a", shared), emit_default_doc=True)
+            shared["typ"] = t
+            _, two = interpolate_defaults(("a", shared), emit_default_doc=True)
+            sites.append(site("default" in two and same(two["default"]), dict(facts, op="interp.two_pass"), fail="value",
+                              got=repr(two.get("default", "<absent>"))))
+        except Exception as e:
+            sites.append(site(False, dict(facts, op="interp.two_pass"), fail="raise", **core.exc_obs(e)))
+    return sites, [text, rm, "raw"], [text, rm, [s["ok"] for s in sites]]
+
+
+C17.run_raw = _run_raw
 
 CHECK = C17
